@@ -160,6 +160,7 @@ pub fn run_case(code: &str, jobs: &[Job], o: &RunOpts) -> Vec<Obs> {
     sys::reset_shared();
     let mut obs: Vec<Option<Obs>> = vec![None; jobs.len()];
     let mut from = 0usize;
+    let mut hangs = 0;
     while from < jobs.len() {
         sys::shared().cur = from as u32;
         let end = sys::fork_run(0, || child_body(code, jobs, from, jobs.len(), o, o.ceiling_s));
@@ -209,8 +210,19 @@ pub fn run_case(code: &str, jobs: &[Job], o: &RunOpts) -> Vec<Obs> {
                     let _ = saved_events;
                 }
                 sys::shared().fault_seen = 0;
+                let hang = ob.reran && ob.end == End::Timeout;
                 obs[cur] = Some(ob);
                 from = cur + 1;
+                if hang {
+                    hangs += 1;
+                    if hangs >= 2 {
+                        // two confirmed hangs in one case: the rest is not run
+                        for i in from..jobs.len() {
+                            obs[i] = Some(snapshot(i, End::NotRun));
+                        }
+                        from = jobs.len();
+                    }
+                }
             }
         }
     }
